@@ -83,6 +83,9 @@ def gen_perm(rng, tier):
             cases.append("perm setcnk %x %x" % (w, rng.randrange(16)))
     for n in range(0, 16):
         cases.append("perm split %x" % n); dist["split"] += 1
+    for n in range(0, 15):
+        for klen in (0, 1, 8, 9, 17):
+            cases.append("perm publish %x %x %x" % (n, klen, rng.randrange(n + 1)))
     # malformed stream: duplicated slots, still inside defined behaviour (no shift >= 64)
     for _ in range(len(cases) // 10):
         n = rng.randrange(2, 15)
